@@ -39,7 +39,8 @@ EXPLANATION = (
     " R5 (generator totality, stonelint.totality): every read of a class-specific IR attribute in the six modules is defined for every class that can reach it, every raise/assert is an unreachable dispatch default, a doc-tag default covering the frontend's tags, a configuration condition or a recorded precondition, and class-keyed table lookups are total."
     ' RC (call-condition drift, stonelint.effects.run_calls): for every call of a repository or imported-library function in the functions the property is anchored in, the path conditions of its occurrences are compared with reference/effects.json by truth table; an assignment under which the function used to make the call and now completes without it is a violation (tests on memo tables, emptiness of the iterated collection and earlier refusals excepted; re-spelled conditions are not claimed).'
     ' MK (memo-key rule, stonelint.memo): a memo table or done-set the reference tree does not have must be keyed by every access path the skipped code reads, injectively and type-aware.'
-    ' RI (interface drift, stonelint.interface): constants and tables (folded values), compiled regular expressions (witness text), parameter defaults, special methods, base classes and caching decorators of the modules the property rests on are compared with reference/interface.json; only a concrete difference in what is computed is reported.')
+    ' RI (interface drift, stonelint.interface): constants and tables (folded values), compiled regular expressions (witness text), parameter defaults, special methods, base classes and caching decorators of the modules the property rests on are compared with reference/interface.json; only a concrete difference in what is computed is reported.'
+    ' MU (mutation drift, stonelint.mutation): the functions the property rests on update in place only the caller-owned, class-level and module-level objects they updated on the confirmed tree, and have no new handler that swallows an exception (reference/mutations.json).')
 ASSUMPTIONS = ['repr() of a str and json.dumps of a number/bool/null are valid JavaScript literals']
 PRIMS = {'Boolean', 'Bytes', 'Float32', 'Float64', 'Int32', 'Int64', 'UInt32', 'UInt64', 'String',
          'Timestamp', 'Void'}
@@ -405,3 +406,5 @@ def run(pm, ctx):
     memo.run(pm, ctx, 'C16-MK', OWN['C16'])
     from .. import interface
     interface.run(pm, ctx, 'C16-RI', OWN['C16'])
+    from .. import mutation
+    mutation.run(pm, ctx, 'C16-MU', OWN['C16'])
